@@ -430,11 +430,122 @@ def make_pn_cases(rng, n_cases):
     return cases, dist
 
 
+# ------------------------------------------------------------------ MultiTaskBCD (one task) against dyadic mock kernels
+class _MTDatafit:
+    def __init__(self, M): self.M = M
+    def initialize(self, X, Y): pass
+    def initialize_sparse(self, *a): pass
+    def get_lipschitz(self, X, Y): return np.array(self.M.lip, dtype=float)
+    def get_lipschitz_sparse(self, *a): return np.array(self.M.lip, dtype=float)
+    def full_grad_sparse(self, data, indptr, indices, Y, XW):
+        return np.array([[self.M.g_at(XW[:, 0], j)] for j in range(self.M.p)])
+    def value(self, Y, W, XW):
+        return sum((XW[j % XW.shape[0], 0] - self.M.T[j]) ** 2 * self.M.a[j] / 2 for j in range(self.M.p))
+    def intercept_update_step(self, Y, XW): return np.array([(XW[0, 0] - self.M.B) / 2])
+
+
+class _MTPenalty:
+    def __init__(self, M): self.M = M
+    def is_penalized(self, n): return np.array(self.M.pen, dtype=bool)
+    def value(self, W):
+        W = np.asarray(W)
+        if self.M.positive and np.any(W < 0):
+            return np.inf
+        return self.M.alpha * float(np.sum(np.abs(W)))
+    def subdiff_distance(self, W, grad, ws):
+        out = np.zeros(len(ws))
+        for idx, j in enumerate(ws):
+            g, wj = grad[idx, 0], W[j, 0]
+            if self.M.positive and wj < 0:
+                out[idx] = np.inf
+            elif wj == 0:
+                out[idx] = 0.0 if abs(g) < self.M.alpha else abs(g) - self.M.alpha
+            else:
+                out[idx] = abs(g)
+        return out
+
+
+class _MTNp(AndersonNp):
+    @staticmethod
+    def argpartition(opt, kth):
+        return _ha.NpProxy.argpartition(opt, kth)
+
+
+def run_real_mt(M, cfg, W_init, XW_init, sparse_X, n):
+    import skglm.solvers.multitask_bcd as mt
+    names = ("_bcd_epoch", "_bcd_epoch_sparse", "construct_grad", "construct_grad_sparse", "dist_fix_point_bcd", "np")
+    saved = {k: getattr(mt, k) for k in names}
+
+    def ep_d(X, Y, W, XW, lc, datafit, penalty, ws): M.epoch(W[:, 0], XW[:, 0], ws)
+    def ep_s(d, ip, ix, Y, W, XW, lc, datafit, penalty, ws): M.epoch(W[:, 0], XW[:, 0], ws)
+    def cg(X, Y, W, XW, datafit, ws): return np.array([[M.g_at(XW[:, 0], j)] for j in ws]).reshape(len(ws), 1)
+    def cg_s(d, ip, ix, Y, XW, datafit, ws): return np.array([[M.g_at(XW[:, 0], j)] for j in ws]).reshape(len(ws), 1)
+    def fixp(W, grad, lip_ws, datafit, penalty, ws): return np.array([abs(grad[idx, 0]) * lip_ws[idx] for idx, j in enumerate(ws)])
+    try:
+        mt._bcd_epoch, mt._bcd_epoch_sparse, mt.construct_grad, mt.construct_grad_sparse = ep_d, ep_s, cg, cg_s
+        mt.dist_fix_point_bcd, mt.np = fixp, _MTNp()
+        p = M.p
+        X = np.zeros((n, p))
+        for j in range(p):
+            X[j % n, j] = 1.0                       # feature j is carried by sample j mod n: X[:, ws] @ W[ws] is the mock model fit
+        if sparse_X:
+            X = sparse.csc_matrix(X)
+        solver = mt.MultiTaskBCD(max_iter=cfg["max_iter"], max_epochs=cfg["max_epochs"], p0=cfg["p0"], tol=cfg["tol"], use_acc=cfg["use_acc"],
+                                 ws_strategy="fixpoint" if cfg["fixpoint"] else "subdiff", fit_intercept=cfg["fit_intercept"])
+        W0 = None if W_init is None else np.array(W_init, dtype=float).reshape(-1, 1)
+        X0 = None if XW_init is None else np.array(XW_init, dtype=float).reshape(-1, 1)
+        M.counts = dict(epochs=0, accepts=0)
+        try:
+            W, obj, stop = solver._solve(X, np.zeros((n, 1)), _MTDatafit(M), _MTPenalty(M), W0, X0)
+        except (ValueError, IndexError, TypeError, AttributeError, ZeroDivisionError, UnboundLocalError) as e:
+            return dict(err=True, exc=repr(e))
+        return dict(err=False, w=list(map(float, np.asarray(W)[:, 0])), Xw=None if X0 is None else list(map(float, X0[:, 0])),
+                    obj=list(map(float, obj)), stop=float(stop), iters=len(obj), epochs=M.counts["epochs"])
+    finally:
+        for k, v in saved.items():
+            setattr(mt, k, v)
+
+
+def make_mt_cases(rng, n_cases):
+    cases, dist = [], dict(err=0, iters={}, epochs_total=0, sparse=0, warm=0, fixpoint=0, intercept=0, acc=0, n_ne_p=0)
+    for k in range(n_cases):
+        M, cfg, w_init, Xw_init, sp, n = _ha.gen_case(rng)
+        cfg = dict(cfg, use_acc=rng.random() < 0.6)
+        if rng.random() < 0.6:
+            cfg["max_epochs"] = rng.choice([5, 6, 7, 11, 12, 13, 21, 22])       # reach the 6-epoch extrapolation and the 10-epoch test
+        if w_init is not None and rng.random() < 0.15:
+            Xw_init = None
+        obs = run_real_mt(M, cfg, w_init, Xw_init, sp, n)
+        cfgc = ("{| mt_max_iter := %d; mt_max_epochs := %d; mt_p0 := %s; mt_tol := %s; mt_fixpoint := %s; mt_fit_intercept := %s; "
+                "mt_use_acc := %s; mt_p := %d; mt_n := %d |}" % (cfg["max_iter"], cfg["max_epochs"], z(cfg["p0"]), q(cfg["tol"]), b(cfg["fixpoint"]),
+                                                                  b(cfg["fit_intercept"]), b(cfg["use_acc"]), M.p, n))
+        wi = "None" if w_init is None else f"(Some {vq(w_init)})"
+        xi = "None" if Xw_init is None else f"(Some {vq(Xw_init)})"
+        expr = f"mt_solve {cfgc} (mt_mock {M.coq()} {M.p}) {wi} {xi}"
+        if obs["err"]:
+            o = "{| om_err := true; om_w := []; om_Xw := []; om_obj := []; om_stop := XBad; om_iters := 0; om_epochs := 0 |}"
+            has_buf = False
+            dist["err"] += 1
+        else:
+            has_buf = obs["Xw"] is not None
+            o = ("{| om_err := false; om_w := %s; om_Xw := %s; om_obj := %s; om_stop := %s; om_iters := %d; om_epochs := %d |}" % (
+                vq(obs["w"]), vq(obs["Xw"]) if has_buf else "[]", lst([xq(x) for x in obs["obj"]]), xq(obs["stop"]), obs["iters"], obs["epochs"]))
+            dist["iters"][obs["iters"]] = dist["iters"].get(obs["iters"], 0) + 1
+            dist["epochs_total"] += obs["epochs"]
+        dist["sparse"] += sp; dist["warm"] += w_init is not None; dist["fixpoint"] += cfg["fixpoint"]; dist["acc"] += cfg["use_acc"]
+        dist["intercept"] += cfg["fit_intercept"]; dist["n_ne_p"] += n != M.p
+        label = (f"mt#{k} n_samples={n} cfg={cfg} sparse={sp} W_init={w_init} XW_init={Xw_init} T={M.T} a={M.a} lip={M.lip} pen={M.pen} "
+                 f"alpha={M.alpha} B={M.B} pos={M.positive} thr={M.thr} -> {obs}")
+        cases.append((label, expr, f"chk_mt {b(has_buf)}", o))
+    return cases, dist
+
+
+MT_IMPORTS = ["Skel.AndersonCD", "Skel.MockACD", "Skel.Generic", "Skel.Anderson", "Skel.MultiTaskBCD", "Skel.CorrSolvers"]
 PN_IMPORTS = ["Skel.AndersonCD", "Skel.MockACD", "Skel.Generic", "Skel.ProxNewton", "Skel.CorrSolvers"]
 BCD_IMPORTS = ["Skel.AndersonCD", "Skel.MockACD", "Skel.Generic", "Skel.GroupBCD", "Skel.CorrSolvers"]
 
 SOLVER_TARGETS = ["Skel/CorrSolvers.vo"]
-SOLVER_SOURCES = ["skglm/solvers/gram_cd.py", "skglm/solvers/group_bcd.py", "skglm/solvers/prox_newton.py", "skglm/solvers/fista.py", "skglm/utils/anderson.py"]
+SOLVER_SOURCES = ["skglm/solvers/gram_cd.py", "skglm/solvers/group_bcd.py", "skglm/solvers/prox_newton.py", "skglm/solvers/fista.py", "skglm/utils/anderson.py", "skglm/solvers/multitask_bcd.py"]
 
 
 def solver_corr(tier, rng, tag):
@@ -448,14 +559,16 @@ def solver_corr(tier, rng, tag):
     rb = tvlib.run_cases(bc, BCD_IMPORTS, tag + "b", shard=12, jobs=16)
     pc, pdist = make_pn_cases(rng, nb)
     rp = tvlib.run_cases(pc, PN_IMPORTS, tag + "p", shard=12, jobs=16)
+    mc, mdist = make_mt_cases(rng, nb)
+    rm = tvlib.run_cases(mc, MT_IMPORTS, tag + "m", shard=12, jobs=16)
     ac = make_aa_cases(rng, 200 if tier == "quick" else 2000)
     ra = tvlib.run_cases(ac, AA_IMPORTS, tag + "a", shard=25, jobs=16)
     fc, fdist = make_fista_cases(rng, 40 if tier == "quick" else 400)
     rf = tvlib.run_cases(fc, FISTA_IMPORTS, tag + "f", shard=6, jobs=16)
-    allc = cases + bc + pc + fc + ac
-    return dict(cases=len(allc), bad=r["bad"] + rb["bad"] + rp["bad"] + rf["bad"] + ra["bad"],
-                errors=r["errors"] + rb["errors"] + rp["errors"] + rf["errors"] + ra["errors"],
-                distribution=dict(gramcd_end_to_end=dist, groupbcd_mock_traces=bdist, proxnewton_mock_traces=pdist, fista_end_to_end=fdist),
+    allc = cases + bc + pc + fc + ac + mc
+    return dict(cases=len(allc), bad=r["bad"] + rb["bad"] + rp["bad"] + rf["bad"] + ra["bad"] + rm["bad"],
+                errors=r["errors"] + rb["errors"] + rp["errors"] + rf["errors"] + ra["errors"] + rm["errors"],
+                distribution=dict(gramcd_end_to_end=dist, groupbcd_mock_traces=bdist, proxnewton_mock_traces=pdist, fista_end_to_end=fdist, multitaskbcd_mock_traces=mdist),
                 distinct_nontrivial=sum(1 for c in allc if "'obj': []" not in c[0] and "'err': True" not in c[0]),
                 samples=[dict(gramcd=cases[0][0][:500]), dict(groupbcd=bc[0][0][:500])])
 
@@ -471,12 +584,15 @@ def merge_corr(a, b_):
     return out
 
 
-if __name__ == "__main__" and len(__import__("sys").argv) > 3 and __import__("sys").argv[3] in ("bcd", "pn", "fista", "aa"):
+if __name__ == "__main__" and len(__import__("sys").argv) > 3 and __import__("sys").argv[3] in ("bcd", "pn", "fista", "aa", "mt"):
     import sys, tvlib
     rng = random.Random(int(sys.argv[1]))
     if sys.argv[3] == "pn":
         cases, dist = make_pn_cases(rng, int(sys.argv[2]))
         r = tvlib.run_cases(cases, PN_IMPORTS, "pn", shard=12, jobs=16)
+    elif sys.argv[3] == "mt":
+        cases, dist = make_mt_cases(rng, int(sys.argv[2]))
+        r = tvlib.run_cases(cases, MT_IMPORTS, "mt", shard=12, jobs=16)
     elif sys.argv[3] == "aa":
         cases, dist = make_aa_cases(rng, int(sys.argv[2])), {}
         r = tvlib.run_cases(cases, AA_IMPORTS, "aa", shard=25, jobs=16)
